@@ -1200,7 +1200,10 @@ SPEC = {
                     'number of object streams under any filter chain incl. predictors, Length direct, by reference to a top-level integer (eager) or to '
                     'an integer kept in an object stream (deferred)); files of several sections (Prev): the Prev loop, newest-entry-wins and the three '
                     'passes of the reader over the merged table are proved format-independently (C02_prev_chain, C02_merge_newest_wins, '
-                    'C02_load_chain_frame); not proved: that the parts ref_write_multi lays out form such a chain (C02_loads_multi_partial, a Definition)',
+                    'C02_load_chain_frame); that the parts ref_write_multi lays out form such a chain and load to the document is proved for every file '
+                    'without object streams (C02_loads_multi_mixed) and for one-part files with object streams (C02_loads_multi_objstm_partial); not '
+                    'proved: object streams in files of two or more parts (C02_loads_multi_partial, a Definition; false without the domain clause '
+                    'part_dom: C02_loads_multi_partial_needs_domain)',
     'rule': '(style, abstract document) pairs: 1-12 objects of every kind nested to depth 3 with adversarial bytes in names and strings, '
             'streams with direct or indirect Length; styles randomise fillers (6 white-space bytes, comments with every EOL), name escapes, '
             'literal/hex string spellings (octal 1-3 digits, short escapes, ignored backslash, continuations, raw EOLs, hex white-space, odd '
@@ -1233,11 +1236,19 @@ MANIFEST = {
                   'merge proved format-independently; C02_loads_multi_mixed: every such file whose parts end with a cross-reference TABLE or a '
                   'cross-reference STREAM (any W / Index / filter chain; mixed chains; Length direct or a reference into any part) loads '
                   'to exactly the objects the document defines (by value) plus the cross-reference stream objects, and to its trailer '
-                  'entries; the superseded bodies are not delivered; object streams across parts checked by correspondence against an '
-                  'independent reference writer extracted from Coq',
-    'level_note': 'partial only in: files of several cross-reference sections that also hold OBJECT STREAMS (C02_loads_multi_partial stays a '
-                  'Definition for the whole style space; every other multi-section file of the reference writer is covered by the theorem '
-                  'C02_loads_multi_mixed, the format-independent half is proved for all); open findings C02-raw-eol (raw CR in literal strings) and C02-deep-parens (nesting above '
+                  'entries; the superseded bodies are not delivered; with object streams: a one-part file of ref_write_multi is the '
+                  'single-section file of the part\'s style (C02_multi_one_part_is_single), C02_loads_multi_objstm_partial / '
+                  'C02_full_all_partial state the union of all proved files with the conclusion of C02_full, and the writer\'s merged table '
+                  'names every member of an object stream in its own container and every current definition at its place whatever later '
+                  'parts supersede (C02_multi_members_named, C02_multi_known_keeps_current); object streams in files of two or more parts '
+                  'are checked by correspondence against an independent reference writer extracted from Coq',
+    'level_note': 'partial only in: files of TWO OR MORE cross-reference sections that also hold OBJECT STREAMS (C02_loads_multi_partial stays a '
+                  'Definition; without a domain it is FALSE: C02_loads_multi_partial_needs_domain -- write_parts accepts a superseded '
+                  'definition of a member\'s number when a later part merely names the number, a defect of the reference writer\'s style '
+                  'space that the generator never draws; the domain clause part_dom excludes it; every other multi-section file of the '
+                  'reference writer is covered by C02_loads_multi_mixed, one-part files with object streams by '
+                  'C02_loads_multi_objstm_partial, the format-independent half is proved for all; missing: the invariant of '
+                  'LoadsMultiMixed.v with type-2 entries and LoadsObjStmFile.GenFile restated per part, notes/C02.md round 6); open findings C02-raw-eol (raw CR in literal strings) and C02-deep-parens (nesting above '
                   '100) are excluded by decidable classes on the input',
     'technique': 'Coq proofs over Gallina models of xref.rs / parser_aux.rs / object_stream.rs / the xref table parser / the token '
                  'parsers; differential check of the models on valid and malformed inputs; reference PDF writer in Gallina '
